@@ -210,33 +210,46 @@ theorem C16_cliWrite (c : Call) (w : World) (fs : Fs) (hc : CallOK c fs) (hdry :
 
 open Octave.Ex
 
+/-- Ops of the fault-free run of the example call (the examples below address ops through it). -/
+def trEx : List Op := traceOf (exec Hid Gen.writeToolStmt callEx {} fsEx)
+
 /-- The hypotheses are satisfiable and the success clause is not vacuous: the run succeeds, installs
-"new" with the old mode 0o640. -/
+"new" with the old mode 0o640, leaves no temp file. -/
 example : (exec Hid Gen.writeToolStmt callEx {} fsEx).res = .ok "new".toList ∧
     (exec Hid Gen.writeToolStmt callEx {} fsEx).st.fs [1, 2] = some (.file "new".toList 416 true) ∧
     (exec Hid Gen.writeToolStmt callEx {} fsEx).st.fs [1, 9] = none := by decide
 
-/-- A kill in the middle of the temp-file write (op 11, after 2 characters): target untouched, a
-partial temp file is left — all-or-nothing speaks about the target only. -/
-example : (exec Hid Gen.writeToolStmt callEx { crashAt := some 11, crashMid := true, cut := 2 } fsEx).res = .crashed ∧
-    (exec Hid Gen.writeToolStmt callEx { crashAt := some 11, crashMid := true, cut := 2 } fsEx).st.fs [1, 2]
-      = some (.file "old".toList 416 true) ∧
-    (exec Hid Gen.writeToolStmt callEx { crashAt := some 11, crashMid := true, cut := 2 } fsEx).st.fs [1, 9]
-      = some (.file "ne".toList 416 false) := by decide
+/-- A kill in the middle of the temp-file write (after 2 characters): target untouched, a partial temp
+file is left — all-or-nothing speaks about the target only. -/
+example :
+    let w : World := { crashAt := some (idx trEx (.write .canonical)), crashMid := true, cut := 2 }
+    (exec Hid Gen.writeToolStmt callEx w fsEx).res = .crashed ∧
+    (exec Hid Gen.writeToolStmt callEx w fsEx).st.fs [1, 2] = some (.file "old".toList 416 true) ∧
+    (exec Hid Gen.writeToolStmt callEx w fsEx).st.fs.dataAt [1, 9] = some "ne".toList := by decide
 
-/-- A fault in `os.replace` (op 16): E_WRITE, target untouched, temp file removed, no clean-up failure. -/
-example : (exec Hid Gen.writeToolStmt callEx { fault := fun n => if n = 16 then some .ENOSPC else none } fsEx).res = .err .E_WRITE ∧
-    (exec Hid Gen.writeToolStmt callEx { fault := fun n => if n = 16 then some .ENOSPC else none } fsEx).st.cf = false ∧
-    (exec Hid Gen.writeToolStmt callEx { fault := fun n => if n = 16 then some .ENOSPC else none } fsEx).st.fs [1, 9] = none := by
-  decide
+/-- A kill right after `os.replace`: the complete new text is there. -/
+example :
+    let w : World := { crashAt := some (idx trEx (.replace .temp .target) + 1) }
+    (exec Hid Gen.writeToolStmt callEx w fsEx).st.fs.dataAt [1, 2] = some "new".toList ∨
+    (exec Hid Gen.writeToolStmt callEx w fsEx).res = .ok "new".toList := by decide
+
+/-- A fault in `os.replace`: E_WRITE, target untouched, temp file removed, no clean-up failure. -/
+example :
+    let w := faultsAt [idx trEx (.replace .temp .target)] .ENOSPC
+    (exec Hid Gen.writeToolStmt callEx w fsEx).res = .err .E_WRITE ∧
+    (exec Hid Gen.writeToolStmt callEx w fsEx).st.cf = false ∧
+    (exec Hid Gen.writeToolStmt callEx w fsEx).st.fs [1, 9] = none ∧
+    (exec Hid Gen.writeToolStmt callEx w fsEx).st.fs [1, 2] = some (.file "old".toList 416 true) := by decide
 
 /-- The hypothesis of `C16_error_clean` is needed: when `os.replace` fails *and* the `os.unlink` of the
-clean-up fails too (ops 16 and 18), the temp file stays — and the model says `cf = true`. -/
+clean-up fails too, the temp file stays — and the model says `cf = true`; the target is still intact. -/
 example :
-    (exec Hid Gen.writeToolStmt callEx { fault := fun n => if n = 16 ∨ n = 18 then some .EIO else none } fsEx).st.cf = true ∧
-    (exec Hid Gen.writeToolStmt callEx { fault := fun n => if n = 16 ∨ n = 18 then some .EIO else none } fsEx).st.fs [1, 9] ≠ none ∧
-    (exec Hid Gen.writeToolStmt callEx { fault := fun n => if n = 16 ∨ n = 18 then some .EIO else none } fsEx).st.fs [1, 2]
-      = some (.file "old".toList 416 true) := by decide
+    let k1 := idx trEx (.replace .temp .target)
+    let k2 := idx (traceOf (exec Hid Gen.writeToolStmt callEx (faultsAt [k1] .EIO) fsEx)) (.unlink .temp)
+    let w := faultsAt [k1, k2] .EIO
+    (exec Hid Gen.writeToolStmt callEx w fsEx).st.cf = true ∧
+    (exec Hid Gen.writeToolStmt callEx w fsEx).st.fs [1, 9] ≠ none ∧
+    (exec Hid Gen.writeToolStmt callEx w fsEx).st.fs [1, 2] = some (.file "old".toList 416 true) := by decide
 
 /-- Validation first: a parse error answers E_PARSE with the file system untouched. -/
 example : (exec Hid Gen.writeToolStmt { callEx with fails := fun _ => some .E_PARSE } {} fsEx).res = .err .E_PARSE := by decide
